@@ -53,7 +53,8 @@ func checkC12(c C12Case, o *vcore.Obs) error {
 	now := c12Epoch
 	lastPub := map[string]time.Time{}
 	firstSeen := map[string]time.Time{} // model: first run at which a name was listed
-	committed := map[string]time.Time{}
+	committed := map[string]time.Time{}  // model: what was merged AND followed by an own upload
+	liveMerged := map[string]time.Time{} // the syncer's own map (one object for the whole history, as in the syncer)
 	ctx := context.Background()
 	runs, deletes := 0, 0
 	maxPerInst := map[string]int{}
@@ -194,17 +195,21 @@ func checkC12(c C12Case, o *vcore.Obs) error {
 			if len(names) > 0 {
 				b.Remove(names[op.Idx%len(names)])
 			}
-		case "commit":
-			m := map[string]time.Time{}
+		case "merge":
+			// the syncer merges a snapshot: its own bookkeeping map changes, the cleaner is NOT told yet
 			inst := c12Insts[op.Inst%len(c12Insts)]
 			if t, ok := lastPub[inst]; ok {
 				ct := t.Add(-time.Duration(op.Back))
-				if old, ok := committed[inst]; !ok || ct.After(old) {
-					m[inst] = ct
-					committed[inst] = ct
+				if old, ok := liveMerged[inst]; !ok || ct.After(old) {
+					liveMerged[inst] = ct
 				}
 			}
-			w.SetCommitted(m)
+		case "commit":
+			// the syncer has uploaded a snapshot of its own: it hands its (live, long-lived) map to the cleaner
+			w.SetCommitted(liveMerged)
+			for k, v := range liveMerged {
+				committed[k] = v
+			}
 		case "run":
 			if err := doRun(step, op.Fault); err != nil {
 				return err
@@ -273,11 +278,11 @@ func genC12(t *rapid.T) C12Case {
 		"db__a__2026__GX.pb.gz", "db__dir/a__20260101-000000-000000000__GX.pb.gz", "db__a__b.pb.gz", "readme.md", "db",
 		"db__a__20260101-000000-00000000__GX.pb.gz"}
 	for i := 0; i < n; i++ {
-		op := C12Op{Kind: rapid.SampledFrom([]string{"publish", "publish", "publish", "advance", "advance", "run", "run", "run", "commit", "foreign", "extdel"}).Draw(t, "kind")}
+		op := C12Op{Kind: rapid.SampledFrom([]string{"publish", "publish", "publish", "advance", "advance", "run", "run", "run", "merge", "merge", "commit", "foreign", "extdel"}).Draw(t, "kind")}
 		switch op.Kind {
-		case "publish", "commit":
+		case "publish", "merge":
 			op.Inst = rapid.IntRange(0, 3).Draw(t, "inst")
-			if op.Kind == "commit" {
+			if op.Kind == "merge" {
 				op.Back = rapid.SampledFrom([]int64{0, 0, 1, -1, int64(time.Hour)}).Draw(t, "back")
 			}
 		case "advance":
@@ -296,7 +301,7 @@ func genC12(t *rapid.T) C12Case {
 
 func TestC12Cleaner(t *testing.T) {
 	vcore.Run(t, vcore.Config{Property: "C12",
-		Rule: "rapid state machine over a bucket and one cleaner.Worker: publish (per-instance increasing timestamps), foreign files (other databases with a shared name prefix, unparsable names, other extensions), external deletions, merge-commit notifications (at / 1 ns before / after the newest snapshot), clock advances around the configured intervals (+-1 ns, multiples), runs with failing List / failing Delete / applied-but-failed Delete; intervals from {0, 1 ns, 1 s, 10 min, 1 h, 7 d}; enabled/disabled; every Delete is checked against the model (well-formed own snapshot, first seen longer ago than the keep interval, newest only when stale and merged-and-republished), then two fault-free runs leave <= 1 file per instance; " +
+		Rule: "rapid state machine over a bucket and one cleaner.Worker: publish (per-instance increasing timestamps), foreign files (other databases with a shared name prefix, unparsable names, other extensions), external deletions, merges recorded in the syncer's own long-lived map (at / 1 ns before / after the newest snapshot) and separate own-upload notifications that hand that same map object to the cleaner, clock advances around the configured intervals (+-1 ns, multiples), runs with failing List / failing Delete / applied-but-failed Delete; intervals from {0, 1 ns, 1 s, 10 min, 1 h, 7 d}; enabled/disabled; every Delete is checked against the model (well-formed own snapshot, first seen longer ago than the keep interval, newest only when stale and merged-and-republished), then two fault-free runs leave <= 1 file per instance; " +
 			"non-trivial = >=2 instances with >=2 snapshots, >=3 runs, >=1 delete"},
 		genC12, checkC12)
 }
